@@ -38,7 +38,7 @@ def soil_doc(sc):
             p["value"] = to_num(float(v))
             p["prop"] = ""
         pts.append(p)
-    d = {"dzcm": [cm(x) for x in dz], "dzsumcm": [cm(x) for x in prof.dzsum], "layer": [int(x) for x in prof.Layer],
+    d = {"dzcm": [cm(x) for x in dz], "dzsumcm": [cm(x) for x in prof.dzsum], "layer": [int(x) if np.isfinite(x) else -1 for x in np.asarray(prof.Layer, dtype=float)],
          "zbot": vec(prof.zBot), "ztop": vec(prof.z_top), "zmid": vec(prof.zMid),
          "dry": vec(prof.th_dry), "wp": vec(prof.th_wp), "fc": vec(prof.th_fc), "sat": vec(prof.th_s), "tau": vec(prof.tau),
          "ksat": vec(prof.Ksat), "pen": vec(prof.Penetrability), "layerDefs": defs,
